@@ -10,6 +10,17 @@ BASELINE = ("cd /repo && /venv/bin/python -m pytest -ra -q -p no:cacheprovider -
 
 # id -> (category, technique, level text, level note, design ref)
 CHECKS = {
+    "C07": ("fault_enumeration",
+            "complete enumeration of the (invalidation route x serialisation fault x format x target state x "
+            "entry point) table on Hypothesis-generated documents; file-system oracle on bytes and directory "
+            "listing",
+            "Every cell of the fault table the property describes is executed in both tiers (exhaustive over "
+            "the table, sampled over the documents): validation errors must raise ParserException in every "
+            "format, and whenever any entry point raises the target path must be absent / byte-identical and "
+            "the directory listing unchanged; warnings-only documents are written, reported and load back.",
+            "Content-caused faults only (no OS-level I/O errors); duplicate sibling names are no longer "
+            "producible through the API.",
+            "DESIGN.md section 5, C07"),
     "C12": ("exploration",
             "Hypothesis-generated documents with links/includes added by construction, finalize/clean/save-load "
             "histories; independent path arithmetic and resolver, snapshot restoration law, saved file inspected "
